@@ -90,8 +90,7 @@ def step (s : St) (line : String) : St × String :=
       | .hdrAccepted _ | .hdrFromProtoErr | .hdrUnexpectedSequencer => "true"
       | _ => "false"
     let (n', evs) := handleBlobs s.proposer s.n da [(b, oracleOf o)] []
-    let ret := if n'.crashed then "panic" else ret
-    ({ s with n := { n' with crashed := false } }, s!"blob ret={ret} events={showEvents evs} hm={showMarks n'.hMarks} dm={showMarks n'.dMarks}")
+    ({ s with n := n' }, s!"blob ret={ret} events={showEvents evs} hm={showMarks n'.hMarks} dm={showMarks n'.dMarks}")
   | "seen" =>
     match headerStage (oracleOf o) (o.bytes "blob") with
     | .ok sh => ({ s with n := { s.n with seenH := sh.header.hash :: s.n.seenH } }, "ok")
@@ -114,7 +113,26 @@ def step (s : St) (line : String) : St × String :=
       let v := match p2pLibAdmit (oracleOf o) t (o.bytes "blob") with
         | .accepted => "accepted" | .rejDecode => "rejected:decode"
         | .rejValidate => "rejected:validate" | .rejVerify => "rejected:verify"
+        | .rejGenesis => "rejected:genesis" | .panics => "panic"
       (s, s!"p2plib {v}")
+  | "p2pboot" =>
+    let v := match p2pBootAdmit (oracleOf o) s.proposer (o.bytes "blob") with
+      | .accepted => "stored" | .rejDecode => "rejected:decode" | .rejValidate => "rejected:validate"
+      | .rejGenesis => "rejected:genesis" | .rejVerify => "rejected:verify" | .panics => "panic"
+    (s, s!"p2pboot {v}")
+  | "p2plibdat" =>
+    let tr : Option (Option Data) :=
+      if o.str "trusted" = "-" || o.str "trusted" = "" then some none
+      else match Data.decode (o.bytes "trusted") with
+        | some t => if t.metadata.isSome then some (some t) else none
+        | none => none
+    match tr with
+    | none => (s, "bad-trusted")
+    | some t =>
+      let v := match p2pLibDataAdmit t (o.bytes "blob") with
+        | .accepted => "accepted" | .rejDecode => "rejected:decode" | .rejValidate => "rejected:validate"
+        | .rejVerify => "rejected:verify" | .rejGenesis => "rejected:genesis" | .panics => "panic"
+      (s, s!"p2plibdat {v}")
   | "flood" =>
     let da := o.nat "da"
     let entry := (da, o.bytes "blob", oracleOf o)
